@@ -419,6 +419,26 @@ func tGen(rt *rapid.T, profile int) scriptCase {
 	return scriptCase{Kind: "gen", Tag: fmt.Sprintf("profile%d", profile), NoOptimize: gen.Uniform(rt, 4, "noopt") == 0, Case: p.Case()}
 }
 
+// tDiscardThrow: the run ends with an error that unwinds through frames re-used by discarded self tail
+// calls (at one or two depths); a companion function returning a value is called first at those depths.
+func tDiscardThrow(rt *rapid.T) scriptCase {
+	depth := 1 + gen.Uniform(rt, 4, "dtdepth")
+	var sb strings.Builder
+	sb.WriteString("global L\nvar f\n")
+	sb.WriteString("val := func(x) { return x + 1 }\n")
+	sb.WriteString("t := func(x) { throw error(\"deep\") }\n")
+	sb.WriteString("f = func(n) {\n  if n == 0 { t(n) }\n  f(n - 1)\n}\n")
+	tag := "plain"
+	if gen.Uniform(rt, 2, "dtwrap") == 0 {
+		tag = "nested"
+		sb.WriteString("g := func() { L(val(1)); f(" + fmt.Sprint(depth) + "); return 7 }\nL(val(41))\nL(g())\n")
+	} else {
+		sb.WriteString("L(val(41))\nf(" + fmt.Sprint(depth) + ")\n")
+	}
+	sb.WriteString("return val(2)\n")
+	return scriptCase{Kind: "discard-throw", Tag: tag, Case: prog.Case{Src: sb.String()}}
+}
+
 // drawPool draws 8..12 script cases: at least one abort script, one module
 // template and one generated program with source modules; the rest is a mix.
 func drawPool(rt *rapid.T) []scriptCase {
@@ -449,6 +469,7 @@ func drawPool(rt *rapid.T) []scriptCase {
 	// two scripts run without a globals object (they share names)
 	pool[len(pool)-1] = tNilGlobals(rt)
 	pool[len(pool)-2] = tNilGlobals(rt)
+	pool[len(pool)-3] = tDiscardThrow(rt)
 	for i := range pool {
 		pool[i].Enc = gen.Uniform(rt, 3, "enc") == 0
 	}
